@@ -10,6 +10,7 @@ import (
 	"os"
 	"path/filepath"
 	"strings"
+	"sync"
 	"syscall"
 
 	"github.com/tormoder/fit"
@@ -78,7 +79,15 @@ var c11MoreErrs = []error{
 // Errors that the library itself returned earlier (for an empty source, for a source cut inside
 // the header, for a failing source), bare and wrapped once more: what a reader hands on that is
 // fed by another stage using this package (a pipe closed with the producer's error).
-func init() {
+var c11OwnOnce sync.Once
+
+// c11OwnErrs extends c11MoreErrs once per process. (Not at package init: a harness process must
+// not touch the library before the check it runs does - other checks need cold processes.)
+func c11OwnErrs() {
+	c11OwnOnce.Do(c11OwnErrsInit)
+}
+
+func c11OwnErrsInit() {
 	var own []error
 	_, e := fit.Decode(bytes.NewReader(nil))
 	own = append(own, e)
@@ -197,6 +206,7 @@ func c11Huge(c *lib.Ctx, idx uint64) {
 }
 
 func c11Run(c *lib.Ctx, rng *lib.Rand, idx uint64, nfiles int, large bool) {
+	c11OwnErrs()
 	// the cache of partial expectations is only useful within one stream (and would otherwise
 	// hold thousands of decoded messages per entry for the large streams)
 	partialCache = map[partialKey]*lib.Expectation{}
